@@ -13,6 +13,9 @@ A. process(records, PsdProcessingSettings | HvsrDiffuseFieldProcessingSettings)
    PSD of several windows == mean of the single-window PSDs; smoothed PSD ==
    reference kernel (ref.kernels) applied to the unsmoothed PSD of the same
    windows; diffuse field == sqrt(smooth(Pns + Pew) / smooth(Pvt)).
+   The amplitude scales include 1e-9, 1e-12 and 1e9: the PSD laws are
+   homogeneous of degree two and the diffuse-field ratio is scale invariant,
+   so no absolute threshold may show up anywhere (all tolerances are relative).
 B. preprocess(records, PsdPreProcessingSettings)
    window length x time step x signal set x offset x differentiate x response
    x Tukey width x FFT request x final detrend.
@@ -68,7 +71,9 @@ SPACE_A = {
     "fft": ["none", "default", "n65536"],
     "taper": [0.1, 0.0, 1.0, 0.5],
     "out": ["psd:off"] + ["psd:" + o for o in OPERATORS] + ["diffuse:" + o for o in OPERATORS],
-    "scale": [1.0, 10.0, -3.0],
+    # 1e-9 / 1e-12: recordings in m/s resp. m (PSD ~1e-18 .. 1e-24, far below machine epsilon but
+    # far above the underflow threshold); 1e9: raw counts.  Every oracle is relative to the signal power.
+    "scale": [1.0, 10.0, -3.0, 1e-9, 1e-12, 1e9],
 }
 ROOT_DIMS_A = ("L", "dt", "sigs", "count", "fft")
 
@@ -235,6 +240,7 @@ class RootA:
                                                            f["count"], f["fft"])
         self.unsm = {}           # (taper, scale) -> unsmoothed PSD result of all windows
         self.single = {}         # (i, taper, scale) -> unsmoothed PSD result of window i
+        self.diffuse1 = {}       # (taper, operator) -> diffuse-field amplitudes at scale 1
 
     # -- executions ----------------------------------------------------------
     def windows(self, scale):
@@ -264,6 +270,16 @@ class RootA:
             except Exception as e:      # noqa: BLE001
                 self.single[key] = e
         return self.single[key]
+
+    def diffuse_at_scale_one(self, taper, op):
+        key = (taper, op)
+        if key not in self.diffuse1:
+            try:
+                res, _ = self.run(self.windows(1.0), taper, "diffuse:" + op)
+                self.diffuse1[key] = np.asarray(res.amplitude, dtype=float)
+            except Exception as e:      # noqa: BLE001 - the scale-1 case is judged as a case of its own
+                self.diffuse1[key] = e
+        return self.diffuse1[key]
 
     # -- reporting -------------------------------------------------------------
     def viol(self, key, case, **kw):
@@ -512,6 +528,20 @@ class RootA:
             self.viol("C17:process(diffuse):proportional-components", case, expected=2.5, observed=amp,
                       explanation="components (3, 4, 2) * s must give sqrt((9 + 16) / 4) = 2.5 everywhere")
             return
+        # scale invariance: the same windows times c give the same ratio
+        if case["scale"] != 1.0:
+            base = self.diffuse_at_scale_one(case["taper"], op)
+            if isinstance(base, Exception) or len(base) != len(amp):
+                ctx.count("diffuse_scale_one_unavailable")
+            else:
+                ctx.count("diffuse_scale_invariance_compared")
+                if not close(amp[keep], base[keep], rtol=RTOL):
+                    self.viol("C17:process(diffuse):scale-invariance", case, expected=base, observed=amp,
+                              detail=dict(smoothing=spec, knife=knife),
+                              explanation=f"diffuse-field HVSR of {case['scale']} * (the windows) differs from the "
+                                          "diffuse-field HVSR of the windows: a ratio of densities cannot depend "
+                                          "on the unit of the recordings")
+                    return
         # non-vacuity: a ratio without the square root / with one horizontal only must differ
         if not close(amp[keep], hv[keep] ** 2, rtol=1e-6):
             ctx.count("variant_no_sqrt_differs")
@@ -791,7 +821,8 @@ def warm():
 
 NONVACUITY = ("variant_no_taper_norm_differs", "variant_div_n_differs",
               "variant_sum_not_mean_differs", "variant_identity_differs", "analytic_compared",
-              "explicit_compared", "welch_compared", "scale_compared")
+              "explicit_compared", "welch_compared", "scale_compared",
+              "diffuse_scale_invariance_compared")
 
 
 def finalize(ctx, tier):
@@ -835,4 +866,7 @@ def describe(tier):
             "expected series is the explicit DFT of the detrended, tapered, padded series (Hermitian "
             "convention, 0 Hz bin dropped)",
             "orientation, filtering and window splitting are switched off in preprocessing (C10 covers them)",
+            "amplitude scales 1e-12 .. 1e9: squares stay within 1e-24 .. 1e18 times the O(1) signal power, i.e. "
+            "no underflow/overflow in double precision; every tolerance is relative to the power of the case, so "
+            "an absolute floor or threshold in the PSD / diffuse-field path is a violation, not a tolerance",
         ])
